@@ -104,10 +104,14 @@ func (m MetavarMatcher) Match(got reflect.Value, d data.Data, r Region) (data.Da
 
 	// We're seeing this for the first time. Capture it into a compiler and
 	// replacer so we can match and reproduce it later.
-	return data.WithValue(d, key, metavarData{
+	md = metavarData{
 		Matcher:  newMatcherCompiler(m.Fset, nil, r.Pos, r.End).compile(got),
 		Replacer: newReplacerCompiler(m.Fset, nil, r.Pos, r.End).compile(got),
-	}), true
+	}
+	if n, ok := got.Interface().(ast.Node); ok {
+		md.Pos, md.End = n.Pos(), n.End()
+	}
+	return data.WithValue(d, key, md), true
 }
 
 type metavarKey string
@@ -115,6 +119,9 @@ type metavarKey string
 type metavarData struct {
 	Matcher
 	Replacer
+
+	// Where the captured code is in the file.
+	Pos, End token.Pos
 }
 
 func isExpression(t reflect.Type) bool {
